@@ -41,6 +41,8 @@ def strategy_(draw, tier):
     out = dict(labels=lbls, opts=opts, mode=mode)
     if mode == "force" and not small and spec.get("via"):
         out["via"] = spec["via"]
+        if "first_spacing" in spec:
+            out["first_spacing"] = spec["first_spacing"]
     if not small and spec.get("late_width"):
         out["late_width"] = True
     if mode == "distributor":
@@ -76,6 +78,7 @@ def check(spec, ctx):
             f = engine.make_force(spec)
             f.nodes(nodes)
             f.compute()
+            engine.reconfigure(f, spec)
             return nodes, f.getLayers(), f
         d = Distributor(dict(spec["opts"]))
         return nodes, d.distribute(nodes), None
